@@ -235,3 +235,4 @@ extend("C02", "Engine V also proves FunctionEvaluator.eval's selection for ALL p
 ENGINE_V += ["C02"]
 extend("C03", "The public queries valid / span / mult are proved on a scalar and on a sequence of ANY length (valid <=> every node in [umin, umax]; span / mult element-wise in order, "
               "ValueError exactly when some node is outside), the recursion through map() resolved by the scalar contract of the same function.")
+extend("C09", "Engine V also proves the Bezier derivative matrix in closed form for EVERY degree (row i: -p/L at column i, p/L at column i+1).")
